@@ -76,6 +76,9 @@ pub enum PeerStep {
     Ack { ack_delta: i32, wnd: Option<u32>, sack: SackSpec },
     /// FIN at its proper number (after all packets) or at packet index `at` (out of sequence).
     Fin { at: Option<usize> },
+    /// The regular FIN again, with an acknowledgement number `back` behind what the peer has
+    /// received (as if the endpoint's latest packets had not reached it).
+    FinStale { back: u16 },
     Reset,
     /// Re-send the SYN (Connector role) / the SYN-ACK (Acceptor role).
     HandshakeDup,
@@ -385,6 +388,12 @@ pub fn spawn(ctx: &Ctx, _socks: &[Sock], p: &PeerScript) -> usize {
                             Some(i) => st.sc_peer.pkt_seq(i),
                             None => st.sc_peer.fin_seq(),
                         };
+                        st.ep.send(remote, p.serialize());
+                    }
+                    PeerStep::FinStale { back } => {
+                        let mut p = st.base(codec::ST_FIN);
+                        p.seq = st.sc_peer.fin_seq();
+                        p.ack = p.ack.wrapping_sub(back);
                         st.ep.send(remote, p.serialize());
                     }
                     PeerStep::Reset => {
